@@ -35,8 +35,9 @@ def gen_components(chk):
             if rng.random() < 0.5:
                 comps[-1]["ops"], comps[-1]["explicit_cl"] = builder_ops(rng, hdrs, len(body), True)
         elif kind == "rsp":
-            status = rng.choice([200, 201, 404, 500, 299, 599, 100 + rng.randrange(500)])
-            reason = b"" if rng.random() < 0.6 else G.value(rng, 1, 10).replace(b"\t", b"x")
+            # non-standard codes too: three digits without a standard reason, and four / five digits up to the receiver's limit
+            status = rng.choice([200, 201, 404, 500, 299, 599, 100 + rng.randrange(500), 600 + rng.randrange(400), 1000 + rng.randrange(64535)])
+            reason = b"" if rng.random() < 0.6 and status < 600 else G.value(rng, 1, 10).replace(b"\t", b"x")
             if rng.random() < 0.15:
                 reason = rng.choice([b"Content-Length: 3", b"Transfer-Encoding: chunked", b"No Content-Length", b"Connection: close"])
             comps.append(dict(kind="rsp", status=status, reason=reason, hdrs=hdrs, body=body))
